@@ -13,6 +13,8 @@
 (*                  converter built from the logged records and `h`;       *)
 (*  mon.C07.hook.declarative  the declarative statement Hooked!P_C07H      *)
 (*                  with the LOGGED answers as oracle;                     *)
+(*  mon.C08.hook    Props!P_C08 (the strict x passthrough matrix differs   *)
+(*                  only in failure reporting) with logged answers;        *)
 (*  mon.C07.hook.<law>  the answer-to-answer laws on raw logged values     *)
 (*                  (they need neither the records nor the graph).         *)
 (***************************************************************************)
@@ -42,10 +44,11 @@ DecVal(m, v) == CASE Kind(m) = "pair" -> <<S(v[1]), S(v[2])>>
 Dec(m, o) == CASE o[1] = "val" -> Val(DecVal(m, o[2]))
                [] o[1] = "raise" -> Raise(o[2])
                [] OTHER -> <<o[1]>>
-KeyOf(m, md) == IF md.s /\ md.p THEN m \o "@sp" ELSE IF md.s THEN m \o "@s" ELSE IF md.p THEN m \o "@p" ELSE m
-Methods == {"parse_uri", "compress", "is_uri", "parse_curie", "expand", "expand_all", "is_curie", "standardize_curie",
+KeyOf(m, md) == IF md.s /\ md.p THEN m \o "@sp" ELSE IF md.s THEN m \o "@s" ELSE IF md.p THEN m \o "@p"
+                ELSE IF ~md.rn THEN m \o "@l" ELSE m
+Methods == {"parse_uri", "compress", "is_uri", "parse_curie", "expand", "expand_all", "is_curie", "standardize_prefix", "standardize_curie",
             "standardize_uri", "parse", "compress_or_standardize", "expand_or_standardize", "compress_strict", "expand_strict"}
-Questions == Methods \X {Default, Strict, Pass, Both}
+Questions == Methods \X {Default, Strict, Pass, Both, Mode(FALSE, FALSE, FALSE)}
 
 \* conformance with the operational specification of the hooked converter
 ConfBad(call, c, h) ==
@@ -56,6 +59,10 @@ ConfBad(call, c, h) ==
 MonBad(call, c, h) ==
   LET A(m, md, x) == IF KeyOf(m, md) \in DOMAIN call.a THEN Dec(m, call.a[KeyOf(m, md)]) ELSE <<"missing">> IN
   IF P_C07H(c, h, S(call.x), A) THEN {} ELSE {"mon.C07.hook.declarative"}
+\* C08 on hooked converters: the modes differ only in how failure is reported (Props!P_C08, logged answers as oracle)
+Mon8Bad(call, c) ==
+  LET A(m, md, x) == IF KeyOf(m, md) \in DOMAIN call.a THEN Dec(m, call.a[KeyOf(m, md)]) ELSE <<"missing">> IN
+  IF P_C08(c, S(call.x), A) THEN {} ELSE {"mon.C08.hook"}
 \* answer-to-answer laws on raw logged values
 LawBad(call) ==
   LET a == call.a  d == S(call.delim) IN
@@ -72,7 +79,7 @@ LawBad(call) ==
   (IF a["expand_strict"] # a["expand@s"] THEN {"mon.C07.hook.expand_strict"} ELSE {})
 CallBad(call) ==
   LET c == ConvOf(call.ci)  h == JHook(call.h) IN
-  LawBad(call) \cup ConfBad(call, c, h) \cup MonBad(call, c, h)
+  LawBad(call) \cup ConfBad(call, c, h) \cup MonBad(call, c, h) \cup Mon8Bad(call, c)
 Groups == D.groups
 VARIABLES g, step
 fvars == <<g, step>>
